@@ -304,8 +304,6 @@ func (e *Engine) registerVerifyIntrinsics() {
 	}
 	in["io/fs.WalkDir"] = func(r *Run, fr *frame, a []Value) Value {
 		fsys := a[0].(Iface).V.(*dirFSObj)
-		fn := a[2]
-		gp := r.eng.prog.ImportedPackage("github.com/ddddddO/gtree")
 		// the root of the walk: "." is the directory of the FS itself; anything else is a path inside it, and fn then
 		// sees root for the top entry and root/<relative path> below it (fs.WalkDir joins with path.Join)
 		root := a[1].(StrV)
@@ -324,86 +322,133 @@ func (e *Engine) registerVerifyIntrinsics() {
 				return concatStr(concatStr(root, strLit("/")), p)
 			}
 		}
-		list := r.callFunc(fr, gp.Func("vfsList"), []Value{top}, nil).(SliceV)
-		notExist := *r.global(r.eng.prog.ImportedPackage("io/fs").Var("ErrNotExist"))
-		skipAll := *r.global(r.eng.prog.ImportedPackage("io/fs").Var("SkipAll"))
-		skipDir := *r.global(r.eng.prog.ImportedPackage("io/fs").Var("SkipDir"))
-		if len(list.Data) == 1 && list.Data[0].(StrV).isConcrete() && list.Data[0].(StrV).concrete() == "!file" {
-			// the root of the walk is a regular file. Walking "." of DirFS(file): fs.Stat(fsys, ".") fails with ENOTDIR and
-			// WalkDir hands that error to fn. Walking a file inside the FS: it is visited as a single entry.
-			var werr Value = Iface{}
-			if rootIsDot {
-				werr = *r.global(gp.Var("verifErrRefused"))
+		// fs.Stat of the walk root follows a symbolic link (os.DirFS opens root/. or root/<path>)
+		return r.walkModel(fr, top, outer, rootIsDot, false, a[2])
+	}
+	// filepath.WalkDir(root, fn): fn sees root itself and root/<relative path>; the root is examined with Lstat, so a
+	// root that is a symbolic link (to a directory) is visited as a single non-directory entry and not descended
+	in["path/filepath.WalkDir"] = func(r *Run, fr *frame, a []Value) Value {
+		root := a[0].(StrV)
+		outer := func(p StrV) StrV {
+			if p.isConcrete() && p.concrete() == "." {
+				return root
 			}
-			res := r.call(fr, fn, []Value{outer(strLit(".")), Iface{}, werr}).(Iface)
-			if res.T != nil && (r.equal(nil, res, skipAll).C || r.equal(nil, res, skipDir).C) {
-				return Iface{}
-			}
-			return res
+			return concatStr(concatStr(root, strLit("/")), p)
 		}
-		if list.Nil || len(list.Data) == 0 {
-			res := r.call(fr, fn, []Value{outer(strLit(".")), Iface{}, notExist}).(Iface)
-			if res.T != nil && (r.equal(nil, res, skipAll).C || r.equal(nil, res, skipDir).C) {
-				return Iface{}
-			}
-			return res
+		return r.walkModel(fr, root, outer, false, true, a[1])
+	}
+}
+
+// walkModel: the directory walk over the harness's file-system model. top: OS path of the walk root; outer maps the
+// model's relative paths ("." for the root) to what fn is given; dotOfFileFS: the walk is fs.WalkDir(os.DirFS(top), "."),
+// which fails with ENOTDIR when top is a regular file; lstatRoot: the root is not followed if it is a symbolic link.
+func (r *Run) walkModel(fr *frame, top StrV, outer func(StrV) StrV, dotOfFileFS, lstatRoot bool, fn Value) Value {
+	gp := r.eng.prog.ImportedPackage("github.com/ddddddO/gtree")
+	rootIsDot := dotOfFileFS
+	isLink := func(p StrV) bool {
+		f := gp.Func("vfsIsLink")
+		if f == nil {
+			return false
 		}
-		kinds := r.callFunc(fr, gp.Func("vfsListKinds"), []Value{fsys.dir}, nil).(SliceV)
-		// fs.WalkDir semantics of SkipDir: returned for a directory, its subtree is skipped; returned for a file, the
-		// remaining entries of the containing directory are skipped. Entries are relative paths; e is inside d iff
-		// its element list has d's as a proper prefix.
-		elemsOf := func(v Value) []StrV { el, _ := splitElems(v.(StrV)); return el }
-		sameEl := func(a, b StrV) bool {
-			e := r.strEqual(a, b)
-			if e.S != nil {
-				return r.branch(e.S)
-			}
-			return e.C
+		return r.callFunc(fr, f, []Value{p}, nil).(BoolV).C
+	}
+	list := r.callFunc(fr, gp.Func("vfsList"), []Value{top}, nil).(SliceV)
+	notExist := *r.global(r.eng.prog.ImportedPackage("io/fs").Var("ErrNotExist"))
+	skipAll := *r.global(r.eng.prog.ImportedPackage("io/fs").Var("SkipAll"))
+	skipDir := *r.global(r.eng.prog.ImportedPackage("io/fs").Var("SkipDir"))
+	if lstatRoot && !list.Nil && len(list.Data) > 0 && isLink(top) {
+		res := r.call(fr, fn, []Value{outer(strLit(".")), Iface{}, Iface{}}).(Iface)
+		if res.T != nil && (r.equal(nil, res, skipAll).C || r.equal(nil, res, skipDir).C) {
+			return Iface{}
 		}
-		hasPrefix := func(e, d []StrV) bool {
-			if len(e) < len(d) {
+		return res
+	}
+	if len(list.Data) == 1 && list.Data[0].(StrV).isConcrete() && list.Data[0].(StrV).concrete() == "!file" {
+		// the root of the walk is a regular file. Walking "." of DirFS(file): fs.Stat(fsys, ".") fails with ENOTDIR and
+		// WalkDir hands that error to fn. Walking a file inside the FS: it is visited as a single entry.
+		var werr Value = Iface{}
+		if rootIsDot {
+			werr = *r.global(gp.Var("verifErrRefused"))
+		}
+		res := r.call(fr, fn, []Value{outer(strLit(".")), Iface{}, werr}).(Iface)
+		if res.T != nil && (r.equal(nil, res, skipAll).C || r.equal(nil, res, skipDir).C) {
+			return Iface{}
+		}
+		return res
+	}
+	if list.Nil || len(list.Data) == 0 {
+		res := r.call(fr, fn, []Value{outer(strLit(".")), Iface{}, notExist}).(Iface)
+		if res.T != nil && (r.equal(nil, res, skipAll).C || r.equal(nil, res, skipDir).C) {
+			return Iface{}
+		}
+		return res
+	}
+	kinds := r.callFunc(fr, gp.Func("vfsListKinds"), []Value{top}, nil).(SliceV)
+	// fs.WalkDir semantics of SkipDir: returned for a directory, its subtree is skipped; returned for a file, the
+	// remaining entries of the containing directory are skipped. Entries are relative paths; e is inside d iff
+	// its element list has d's as a proper prefix.
+	elemsOf := func(v Value) []StrV { el, _ := splitElems(v.(StrV)); return el }
+	sameEl := func(a, b StrV) bool {
+		e := r.strEqual(a, b)
+		if e.S != nil {
+			return r.branch(e.S)
+		}
+		return e.C
+	}
+	hasPrefix := func(e, d []StrV) bool {
+		if len(e) < len(d) {
+			return false
+		}
+		for i := range d {
+			if !sameEl(e[i], d[i]) {
 				return false
 			}
-			for i := range d {
-				if !sameEl(e[i], d[i]) {
-					return false
+		}
+		return true
+	}
+	skipped := make([]bool, len(list.Data))
+	// an entry below the walk root that is a symbolic link is listed but never descended
+	for i := 1; i < len(list.Data); i++ {
+		if isLink(concatStr(concatStr(top, strLit("/")), list.Data[i].(StrV))) {
+			me := elemsOf(list.Data[i])
+			for j := i + 1; j < len(list.Data); j++ {
+				if ej := elemsOf(list.Data[j]); len(ej) > len(me) && hasPrefix(ej, me) {
+					skipped[j] = true
 				}
 			}
-			return true
 		}
-		skipped := make([]bool, len(list.Data))
-		for i, p := range list.Data {
-			if skipped[i] {
+	}
+	for i, p := range list.Data {
+		if skipped[i] {
+			continue
+		}
+		res := r.call(fr, fn, []Value{outer(p.(StrV)), Iface{}, Iface{}}).(Iface)
+		if res.T != nil {
+			if r.equal(nil, res, skipAll).C {
+				return Iface{}
+			}
+			if r.equal(nil, res, skipDir).C {
+				if i == 0 {
+					return Iface{} // SkipDir on the root of the walk ends it
+				}
+				me := elemsOf(p)
+				isDir := i < len(kinds.Data) && r.concreteInt(kinds.Data[i], "kind") == 1
+				for j := i + 1; j < len(list.Data); j++ {
+					ej := elemsOf(list.Data[j])
+					if isDir {
+						if len(ej) > len(me) && hasPrefix(ej, me) {
+							skipped[j] = true
+						}
+					} else if len(me) > 0 && len(ej) >= len(me) && hasPrefix(ej, me[:len(me)-1]) {
+						skipped[j] = true // a later entry of the same directory (or beneath one)
+					}
+				}
 				continue
 			}
-			res := r.call(fr, fn, []Value{outer(p.(StrV)), Iface{}, Iface{}}).(Iface)
-			if res.T != nil {
-				if r.equal(nil, res, skipAll).C {
-					return Iface{}
-				}
-				if r.equal(nil, res, skipDir).C {
-					if i == 0 {
-						return Iface{} // SkipDir on the root of the walk ends it
-					}
-					me := elemsOf(p)
-					isDir := i < len(kinds.Data) && r.concreteInt(kinds.Data[i], "kind") == 1
-					for j := i + 1; j < len(list.Data); j++ {
-						ej := elemsOf(list.Data[j])
-						if isDir {
-							if len(ej) > len(me) && hasPrefix(ej, me) {
-								skipped[j] = true
-							}
-						} else if len(me) > 0 && len(ej) >= len(me) && hasPrefix(ej, me[:len(me)-1]) {
-							skipped[j] = true // a later entry of the same directory (or beneath one)
-						}
-					}
-					continue
-				}
-				return res
-			}
+			return res
 		}
-		return Iface{}
 	}
+	return Iface{}
 }
 
 // registerFmtIntrinsics: fmt.Sprintf / errors.Is models used by every configuration.
